@@ -304,8 +304,9 @@ def arith (W : Nat) (op form a b : String) : Option String := do
   -- `sqr::MAX_LEN_SIMPLE`, regenerated from integer/src/sqr/mod.rs (Tie A)
   let sqS := Dashu.Gen.sqr_MAX_LEN_SIMPLE
   let signedB := op = "iadd" || op = "isub" || op = "imul" || op = "idiv" || op = "irem" || op = "idivrem" ||
-    op = "iand" || op = "ior" || op = "ixor" || op = "igcd"
-  let signed := signedB || op = "ishl" || op = "ishr" || op = "ipow"
+    op = "iand" || op = "ior" || op = "ixor" || op = "igcd" || op = "igcdext" || op = "gcd_ui" || op = "gcd_iu" ||
+    op = "gcdext_ui" || op = "gcdext_iu"
+  let signed := signedB || op = "ishl" || op = "ishr" || op = "ipow" || op = "inot"
   let xi ← (if signed then parseInt a else (fun n : Nat => (n : Int)) <$> parseNat a)
   let x := xi.natAbs
   let xs := natWords W x
@@ -314,6 +315,15 @@ def arith (W : Nat) (op form a b : String) : Option String := do
     | "sub" => do let y ← parseNat b; pure (fragSub W (← parseFormA form) xs (natWords W y), some (natWords W y))
     | "mul" => do let y ← parseNat b; pure (fragMul W sqS (← parseFormA form) xs (natWords W y), some (natWords W y))
     | "divrem" => do let y ← parseNat b; pure (fragDivRemBoth W (← parseForm form) xs (natWords W y), some (natWords W y))
+    -- `UBig`'s Euclidean division family forwards to the same `repr` functions (div_ops.rs `forward_ubig_binop_to_repr!(impl
+    -- DivEuclid, div_euclid, div)` …); `div_rem_assign` is `let (a, b) = mem::take(self).div_rem(rhs); *self = a; b`
+    | "divremeuc" => do let y ← parseNat b; pure (fragDivRemBoth W (← parseForm form) xs (natWords W y), some (natWords W y))
+    | "divremassign" => do
+      let y ← parseNat b
+      let f ← (if form = "av" then some Form.vv else if form = "ar" then some Form.vr else none)
+      pure (fragDivRemBoth W f xs (natWords W y), some (natWords W y))
+    | "diveuc" => do let y ← parseNat b; pure (fragDivRem W false (← parseForm form) xs (natWords W y), some (natWords W y))
+    | "remeuc" => do let y ← parseNat b; pure (fragDivRem W true (← parseForm form) xs (natWords W y), some (natWords W y))
     | "and" => do let y ← parseNat b; pure (fragBit W .and (← parseFormA form) xs (natWords W y), some (natWords W y))
     | "or" => do let y ← parseNat b; pure (fragBit W .or (← parseFormA form) xs (natWords W y), some (natWords W y))
     | "xor" => do let y ← parseNat b; pure (fragBit W .xor (← parseFormA form) xs (natWords W y), some (natWords W y))
@@ -342,6 +352,18 @@ def arith (W : Nat) (op form a b : String) : Option String := do
       let byVal ← parseByVal form
       if op = "ishl" then pure (fragSignedShl W mx byVal (decide (xi < 0)) xs k, none)
       else pure (fragSignedShr W sqS byVal (decide (xi < 0)) xs k, none)
+    | "igcdext" | "gcd_ui" | "gcd_iu" | "gcdext_ui" | "gcdext_iu" => do
+      -- `_ui`: UBig lhs, IBig rhs; `_iu`: IBig lhs, UBig rhs (the UBig side must be non-negative)
+      let yi ← parseInt b
+      let ys := natWords W yi.natAbs
+      let aI := op = "igcdext" || op = "gcd_iu" || op = "gcdext_iu"
+      let bI := op = "igcdext" || op = "gcd_ui" || op = "gcdext_ui"
+      if (!aI && xi < 0) || (!bI && yi < 0) then none
+      else pure (fragMixedGcd W (op = "igcdext" || op = "gcdext_ui" || op = "gcdext_iu") (← parseForm form) aI (decide (xi < 0)) xs
+        bI (decide (yi < 0)) ys, some ys)
+    | "inot" => do
+      let byVal ← (if form = "v" then some true else if form = "r" then some false else none)
+      pure (fragNot W byVal (decide (xi < 0)) xs, none)
     | "ipow" => do
       let k ← parseDecNat b
       if form = "r" then pure (fragSignedPow W mx sqS (decide (xi < 0)) xs k, none) else none
